@@ -323,19 +323,46 @@ def find_func(tree, name, cls=None):
                     return sub
         if cls is None and isinstance(node, ast.FunctionDef) and node.name == name:
             return node
-    return None
+    # not found (renamed, moved): an empty function, so that every recogniser that walks it finds nothing and
+    # reports "not recognised" through its table instead of the translator crashing
+    stub = ast.parse("def _missing():\n    pass\n").body[0]
+    stub.name = name
+    return stub
 
 
 def pos_term(p):
     return f".{p}" if p in POSITIONS else None
 
 
+def _literal_by_shape(tree, pred):
+    """the first literal assigned at module level (whatever the constant is called) that satisfies `pred`"""
+    for node in tree.body:
+        val = getattr(node, "value", None) if isinstance(node, (ast.Assign, ast.AnnAssign)) else None
+        if val is None:
+            continue
+        v = literal(val)
+        try:
+            if v is not None and pred(v):
+                return v
+        except Exception:  # noqa: BLE001
+            pass
+    return None
+
+
 def gen_axis():
     tree = ast.parse(src("axis.py"))
     valid = literal(module_assign(tree, "VALID_POSITION_NAMES"))
+    if not isinstance(valid, str):        # renamed: the "|"-separated string of the five position words
+        valid = _literal_by_shape(tree, lambda v: isinstance(v, str) and sorted(v.split("|")) == sorted(POSITIONS))
     fb = literal(module_assign(tree, "FALLBACK_SHIFTS"))
+    if not isinstance(fb, dict):          # renamed: the mapping position -> sequence of positions
+        fb = _literal_by_shape(tree, lambda v: isinstance(v, dict) and len(v) >= 3 and all(
+            k in POSITIONS and isinstance(vs, (list, tuple)) and all(x in POSITIONS for x in vs) for k, vs in v.items()))
     ptree = ast.parse(src("padding.py"))
     padmap = literal(module_assign(ptree, "_XGCM_BOUNDARY_KWARG_TO_XARRAY_PAD_KWARG"))
+    if not isinstance(padmap, dict):      # renamed: the mapping boundary word -> pad mode
+        padmap = _literal_by_shape(ptree, lambda v: isinstance(v, dict) and {"periodic", "fill", "extend"} <= set(v)
+                                   and all(isinstance(x, str) for x in v.values()))
 
     # defaults in Axis.__init__:  `if boundary is None: boundary = <lit>`,
     # `if fill_value is None: fill_value = <lit>`
@@ -351,6 +378,21 @@ def gen_axis():
                 and isinstance(node.body[0].targets[0], ast.Name) \
                 and node.body[0].targets[0].id == node.test.left.id:
             defaults[node.test.left.id] = literal(node.body[0].value)
+        # the same default written as a conditional expression:
+        #   x = <lit> if x is None else x        /        x = x if x is not None else <lit>
+        if isinstance(node, ast.Assign) and len(node.targets) == 1 and isinstance(node.targets[0], ast.Name) \
+                and isinstance(node.value, ast.IfExp) and isinstance(node.value.test, ast.Compare) \
+                and len(node.value.test.ops) == 1 and isinstance(node.value.test.left, ast.Name) \
+                and node.value.test.left.id == node.targets[0].id \
+                and isinstance(node.value.test.comparators[0], ast.Constant) \
+                and node.value.test.comparators[0].value is None:
+            nm = node.targets[0].id
+            op = node.value.test.ops[0]
+            lit_side, same_side = (node.value.body, node.value.orelse) if isinstance(op, ast.Is) else (
+                (node.value.orelse, node.value.body) if isinstance(op, ast.IsNot) else (None, None))
+            if lit_side is not None and isinstance(same_side, ast.Name) and same_side.id == nm \
+                    and literal(lit_side) is not None:
+                defaults[nm] = literal(lit_side)
 
     lines = ["import XgcmModel.Model.Basic",
              "/- GENERATED by tools/extract.py from xgcm/axis.py, xgcm/padding.py — do not edit -/",
@@ -768,7 +810,7 @@ def gen_regex():
                 and node.value.func.value.id == "re" and len(node.value.args) == 1 and not node.value.keywords \
                 and isinstance(node.value.args[0], ast.Name) and node.value.args[0].id == "_SIGNATURE":
             compiled.add(node.targets[0].id)
-    for node in ast.walk(fn):
+    for node in ast.walk(fn if len(fn.body) > 1 or not isinstance(fn.body[0], ast.Pass) else tree):
         if isinstance(node, ast.Call) and isinstance(node.func, ast.Attribute) \
                 and isinstance(node.func.value, ast.Name):
             if node.func.value.id == "re" and node.args and isinstance(node.args[0], ast.Name) \
@@ -1344,6 +1386,14 @@ def gen_tables():
                 pad2pos = literal(node.value)
             except Exception:
                 pad2pos = None
+    if pad2pos is None:
+        # renamed or hoisted: any dict literal whose keys are the four SGRID padding words
+        for node in ast.walk(ast.parse(src("sgrid.py"))):
+            if isinstance(node, ast.Dict):
+                v = literal(node)
+                if isinstance(v, dict) and set(v) == {"high", "low", "both", "none"}:
+                    pad2pos = v
+                    break
     lines.append("/-- `pad2pos` of sgrid.py: padding word -> position of the node dimension -/")
     lines.append("def sgridPad2Pos : List (String × String) := [" + ", ".join(
         f"({lean_str(str(k))}, {lean_str(str(v))})" for k, v in (pad2pos or {}).items()) + "]")
@@ -1368,6 +1418,9 @@ def gen_tables():
         pmv = literal(pm) if pm is not None else {}
     except Exception:
         pmv = {}
+    if not pmv:
+        pmv = _literal_by_shape(ptree, lambda v: isinstance(v, dict) and {"periodic", "fill", "extend"} <= set(v)
+                                and all(isinstance(x, str) for x in v.values())) or {}
     lines.append("/-- `_XGCM_BOUNDARY_KWARG_TO_XARRAY_PAD_KWARG` (the `None` key spelled \"None\") -/")
     lines.append("def padModes : List (String × String) := [" + ", ".join(
         f"({lean_str(str(k))}, {lean_str(str(v))})" for k, v in pmv.items()) + "]")
@@ -1376,6 +1429,39 @@ def gen_tables():
 
 
 GENERATORS = [gen_gridops, gen_axis, gen_grid_defaults, gen_regex, gen_sites, gen_tables]
+
+
+# what a generator leaves behind when it fails: every name it defines, with NO content and every "recognised" flag
+# false (the driver still builds; the obligations over the table stop checking)
+FAILED_STUBS = {
+    "gen_gridops": ("Gridops", "import XgcmModel.Model.Stencil\nnamespace Xgcm.Gen\nopen Xgcm\n"
+                    "def gridops : List UfuncEntry := []\ndef gridopsOdd : List (String × String) := []\n"
+                    "def gridopsOptions : List (String × List (String × String)) := []\nend Xgcm.Gen\n"),
+    "gen_axis": ("Axis", "import XgcmModel.Model.Basic\nnamespace Xgcm.Gen\nopen Xgcm\n"
+                 "def validPositionNames : List String := []\ndef fallbackShifts : List (Pos × List Pos) := []\n"
+                 "def fallbackShiftsRecognised : Bool := false\ndef padModeMap : List (Option String × String) := []\n"
+                 "def axisDefaultBoundary : String := \"None\"\ndef axisDefaultFill : Option Int := none\nend Xgcm.Gen\n"),
+    "gen_grid_defaults": ("GridDefaults", "import XgcmModel.Model.Basic\nnamespace Xgcm.Gen\nopen Xgcm\n"
+                          "def periodicTrueBoundary : String := \"None\"\ndef periodicFalseBoundary : String := \"None\"\n"
+                          "def cumsumTable : List ((Pos × Pos) × (Bool × Nat × Nat)) := []\n"
+                          "def cumsumTableRecognised : Bool := false\nend Xgcm.Gen\n"),
+    "gen_regex": ("Regex", "import XgcmModel.Model.Basic\nnamespace Xgcm.Gen\nopen Xgcm\n"
+                  + "".join(f"def {n} : Option (List Char) := none\n" for n in
+                            ("reAxisName", "reAxisPosition", "reAxisNamePositionPair", "reAxisNamePositionPairList",
+                             "reArgument", "reArgumentList", "reSignature"))
+                  + "def signatureMatcher : String := \"None\"\ndef disallowedOverlapPositions : List String := []\n"
+                    "def ufuncStoredOptions : List String := []\ndef ufuncCallTimeOptions : List String := []\n"
+                    "def ufuncForwarded : List (String × String) := []\ndef decoratorAllowedKwargs : List String := []\n"
+                    "end Xgcm.Gen\n"),
+    "gen_sites": ("Sites", "import XgcmModel.Model.Basic\nnamespace Xgcm.Gen\nopen Xgcm\n"
+                  "def argumentWrites : List (String × String × Nat × String × String) := []\n"
+                  "def sitesRecognised : Bool := false\ndef sitesFunctionsAnalysed : Nat := 0\n"
+                  "def setIterations : List (String × Nat × String) := [(\"extraction-failed\", 0, \"extraction-failed\")]\n"
+                  "end Xgcm.Gen\n"),
+    "gen_tables": ("Tables", "import XgcmModel.Model.Basic\nnamespace Xgcm.Gen\nopen Xgcm\n"
+                   "def sgridPad2Pos : List (String × String) := []\ndef comodoShiftsTwice : List Int := []\n"
+                   "def padModes : List (String × String) := []\nend Xgcm.Gen\n"),
+}
 
 
 def main():
@@ -1387,6 +1473,15 @@ def main():
         except SyntaxError as e:
             print(f"extract: source does not parse: {e}", file=sys.stderr)
             return 2
+        except Exception as e:  # noqa: BLE001
+            # a recogniser met something it cannot read: that is "not recognised", never a crash - the generated
+            # file is replaced by one without content, so that every obligation over it stops checking and the
+            # check goes looking for a failing input (it must not keep proving things about a stale table)
+            print(f"extract: {g.__name__} failed ({type(e).__name__}: {e}); its table is emptied", file=sys.stderr)
+            name, stub = FAILED_STUBS[g.__name__]
+            write_if_changed(name + ".lean", "/- GENERATED by tools/extract.py: EXTRACTION FAILED ("
+                             + type(e).__name__ + ") - every table empty / marked unrecognised -/\n" + stub)
+            changed.append(g.__name__ + "(failed)")
     print("extract: regenerated " + (", ".join(changed) if changed else "nothing (up to date)"))
     return 0
 
